@@ -28,6 +28,9 @@ RULESETS = {
     "C": ({"global": {"EVENT": "2/min", "REQ": "1/s"}, "2.2.2.2": {"EVENT": "2/s", "REQ": "1/hour"}, "3.3.3.3": {"REQ": "-1/h"}},
           {"global": {"EVENT": [[60, 2]], "REQ": [[1, 1]]}, "2.2.2.2": {"EVENT": [[1, 2]], "REQ": [[3600, 1]]},
            "3.3.3.3": {"REQ": [[3600, -1]]}}),
+    # a longer window with a smaller allowance than the shorter one (legal, unusual), three rules for one command
+    "D": ({"ip": {"EVENT": "3/s,1/min"}, "global": {"REQ": "4/s,2/min,3/hour"}},
+          {"ip": {"EVENT": [[60, 1], [1, 3]]}, "global": {"REQ": [[3600, 3], [60, 2], [1, 4]]}}),
 }
 
 GEN_EXTRA = r"""
@@ -136,7 +139,7 @@ def run(prop, tier, seed, **kw):
     out = Outcome("C18", tier, seed, "model_checking")
     out.add_matcher("global-limit-counts-messages-the-ip-rule-refused", _known_overblock)
     rnd = random.Random(seed)
-    design = tlc.DesignCheck([("MC_RateLimiter", "MC_RateLimiter_%s.cfg" % w, "RateLimiter/" + w) for w in ("A", "B", "C")],
+    design = tlc.DesignCheck([("MC_RateLimiter", "MC_RateLimiter_%s.cfg" % w, "RateLimiter/" + w) for w in ("A", "B", "C", "D")],
                              workers=4, timeout=1800)
     depth = {"quick": 3, "thorough": 4}[tier]
     distinct = set()
@@ -174,7 +177,7 @@ def run(prop, tier, seed, **kw):
     design.join(out)
     out.cov["distinct_nontrivial"] = len(distinct)
     out.cov["rule"] = ("every arrival sequence of length %d over 3 addresses x 2 commands x clock steps {0,1,30,61} s enumerated by TLC "
-                       "for 3 rule sets (global+ip+specific+exempt; ip only; global+specific), plus seeded long runs (sustained "
+                       "for 4 rule sets (global+ip+specific+exempt; ip only; global+specific; longer window with smaller allowance), plus seeded long runs (sustained "
                        "traffic at / just below the limits, bursts), each replayed on the real RateLimiter with cleanup() calls "
                        "interleaved; a case is (rule set, sequence); non-trivial = some message was refused" % depth)
     out.cov["samples"] = samples or [{"note": "none"}]
